@@ -86,7 +86,9 @@ def strat_a(tier):
         'segments': st.lists(_comp, min_size=1, max_size=4),
         'query': st.lists(st.tuples(_comp, st.one_of(st.none(), _comp)).map(list), max_size=4),
         'fragment': _comp,
-        'build': st.sampled_from(['from_parts', 'assign', 'from_parts', 'assign', 'from_parts_omd', 'from_parts_qpd']),
+        # 'assign_rendered': the URL object was rendered (both quoting levels) while only half-built; the remaining components and
+        # query items were set afterwards, through the different mutators of the attribute / query_params
+        'build': st.sampled_from(['from_parts', 'assign', 'from_parts', 'assign', 'from_parts_omd', 'from_parts_qpd', 'assign_rendered', 'assign_rendered']),
     })
 
 
@@ -125,7 +127,7 @@ def run_a(case):
     segments = list(case['segments'])
     query = [(k, v) for k, v in case['query'] if not (k == '' and v is None)]
     build = case['build']
-    if hkind == 'ipv6':
+    if hkind == 'ipv6' and build != 'assign_rendered':
         build = 'assign'
     desc = 'scheme=%r host=%r port=%r username=%r password=%r segments=%r query=%r fragment=%r via %s' % (
         scheme, host, port, username, password, segments, query, fragment, build)
@@ -142,6 +144,36 @@ def run_a(case):
                 qarg = donor.query_params
             u = URL.from_parts(scheme=scheme, host=host, path_parts=[''] + segments, query_params=qarg,
                                fragment=fragment, port=port, username=username, password=password)
+        elif build == 'assign_rendered':
+            base = '%s://%s' % (scheme, '[%s]' % host if hkind == 'ipv6' else host)
+            u = URL(base)
+            half = len(query) // 2
+            u.username, u.fragment = username, 'earlier-fragment'
+            u.path_parts = tuple([''] + segments[:1] + ['earlier'])
+            u.query_params.clear()
+            for k, v in query[:half]:
+                u.query_params.add(k, v)
+            u.to_text(full_quote=True)
+            u.to_text()
+            str(u)
+            u.password, u.fragment, u.port = password, fragment, port
+            u.path_parts = tuple([''] + segments)
+            rest = query[half:]
+            i = 0
+            while i < len(rest):
+                j = i
+                while j < len(rest) and rest[j][0] == rest[i][0]:
+                    j += 1
+                how = (i + len(segments)) % 3
+                if how == 0:
+                    u.query_params.addlist(rest[i][0], [v for _, v in rest[i:j]])
+                elif how == 1:
+                    u.query_params.update_extend(rest[i:j])
+                else:
+                    for k, v in rest[i:j]:
+                        u.query_params.add(k, v)
+                i = j
+            out.label('rendered_while_half_built')
         else:
             base = '%s://%s' % (scheme, '[%s]' % host if hkind == 'ipv6' else host)
             u = URL(base)
